@@ -23,11 +23,11 @@ struct Line { cmd: String, date: i64, sym: String, qty: String, price: String, f
 #[derive(Debug, Clone, Deserialize)]
 struct SchwabRec { rows: Vec<Row>, lines: Vec<Line>, skipped: usize, comments: usize, warnings: usize }
 #[derive(Debug, Clone, Deserialize)]
-struct Detail { kind: String, vdate: i64, price: String }
+struct Detail { kind: String, vdate: i64, price: String, #[serde(default)] fprice: String }
 #[derive(Debug, Clone, Deserialize)]
 struct Entry { date: i64, sym: String, details: Vec<Detail>, order: String }
 #[derive(Debug, Clone, Deserialize)]
-struct AwardsRec { entries: Vec<Entry>, dep: i64, sym: String, admissible: Vec<(String, i64, String)> }
+struct AwardsRec { entries: Vec<Entry>, dep: i64, sym: String, admissible: Vec<(String, i64, String)>, sym2: String, admissible2: Vec<(String, i64, String)> }
 
 fn day(base: NaiveDate, idx: i64) -> NaiveDate { base + Duration::days(idx) }
 fn us(d: NaiveDate) -> String { d.format("%m/%d/%Y").to_string() }
@@ -244,6 +244,7 @@ fn main() {
     let aresults = cgtv::par::par_map(&arecs, cgtv::par::threads(), |case_no, rec| {
         let mut c = Counters::default();
         let mut fs: Vec<Finding> = Vec::new();
+        let mut fs2: Vec<Finding> = Vec::new();
         for (bi, (y, m, d)) in bases.iter().enumerate() {
             let base = NaiveDate::from_ymd_opt(*y, *m, *d).unwrap_or_default();
             for sym_case in ["upper", "mixed"] {
@@ -253,7 +254,10 @@ fn main() {
                     // "fv": the fallback detail comes first, "vf": the vest detail first
                     ds.sort_by_key(|x| if (x.kind == "fallback") == (e.order == "fv") { 0 } else { 1 });
                     let details: Vec<serde_json::Value> = ds.iter().map(|x| {
-                        if x.kind == "vest" {
+                        if x.kind == "both" {
+                            if x.vdate == 0 { json!({"Details": {"VestFairMarketValue": format!("${}", x.price), "FairMarketValuePrice": format!("${}", x.fprice)}}) }
+                            else { json!({"Details": {"FairMarketValuePrice": format!("${}", x.fprice), "VestDate": us(day(base, x.vdate)), "VestFairMarketValue": format!("${}", x.price)}}) }
+                        } else if x.kind == "vest" {
                             if x.vdate == 0 { json!({"Details": {"VestFairMarketValue": format!("${}", x.price)}}) }
                             else { json!({"Details": {"VestDate": us(day(base, x.vdate)), "VestFairMarketValue": format!("${}", x.price)}}) }
                         } else { json!({"Details": {"FairMarketValuePrice": format!("${}", x.price)}}) }
@@ -290,6 +294,39 @@ fn main() {
                         }
                     }
                 }
+                // two deposits on one day, of two symbols: each is looked up on its own (nothing carries over from one row to the next)
+                if bi == 0 && sym_case == "upper" {
+                    let row = |s: &str, q: &str| json!({"Date": us(dep), "Action": "Stock Plan Activity", "Symbol": s, "Description": "RS", "Quantity": q, "Price": "", "Fees & Comm": "", "Amount": ""});
+                    let rows = if case_no % 2 == 0 { vec![row(&rec.sym, "10"), row(&rec.sym2, "7")] } else { vec![row(&rec.sym2, "7"), row(&rec.sym, "10")] };
+                    let tx2 = json!({"BrokerageTransactions": rows}).to_string();
+                    let inp2 = format!("awards: {awards}\ntransactions: {tx2}");
+                    let mut push2 = |kind: &str, detail: String| fs2.push(Finding { prop: "C19".into(), kind: kind.into(), case: case_no, detail, input: inp2.clone(), data: json!({"admissible": rec.admissible, "admissible2": rec.admissible2}) });
+                    c.inc("executions");
+                    c.inc("two_symbol_lookups");
+                    match convert(&tx2, Some(awards.clone())) {
+                        Err(p) => push2("panic", format!("converter panicked: {p}")),
+                        Ok(Err(e)) => {
+                            let missing: Vec<&String> = [(&rec.sym, &rec.admissible), (&rec.sym2, &rec.admissible2)].iter().filter(|x| x.1.is_empty()).map(|x| x.0).collect();
+                            if missing.is_empty() { push2("vest_not_found", format!("both symbols have a vest entry within seven days, yet conversion failed: {e}")); }
+                            else if !(missing.iter().any(|m| e.contains(m.as_str())) && e.contains(&dep.to_string())) { push2("error_text", format!("the failure does not name a symbol without a vest entry ({missing:?}) and the date: {e}")); }
+                        }
+                        Ok(Ok(o)) => {
+                            let txs = parse_file(&o.cgt_content).unwrap_or_default();
+                            for (s_, adm) in [(&rec.sym, &rec.admissible), (&rec.sym2, &rec.admissible2)] {
+                                let buy = txs.iter().find_map(|t| match &t.operation { Operation::Buy { price, .. } if t.ticker == *s_ => Some((t.date, price.amount)), _ => None });
+                                match buy {
+                                    None => push2("no_buy", format!("conversion succeeded without a BUY line for {s_}")),
+                                    Some((date, price)) => {
+                                        if adm.is_empty() { push2("invented_cost", format!("{s_} has no awards entry within seven days before the deposit, yet a BUY dated {date} at {price} was produced")); }
+                                        else if !adm.iter().any(|a| day(base, a.1) == date && dec(&a.2) == price) {
+                                            push2("wrong_vest", format!("{s_}: BUY dated {date} at {price}; admissible: {:?}", adm.iter().map(|a| (day(base, a.1), a.2.clone())).collect::<Vec<_>>()));
+                                        }
+                                    }
+                                }
+                            }
+                        }
+                    }
+                }
                 // no awards file at all: must fail naming symbol and date
                 if bi == 0 && sym_case == "upper" && case_no % 50 == 0 {
                     c.inc("executions");
@@ -301,6 +338,7 @@ fn main() {
                 }
             }
         }
+        fs.extend(fs2);
         (fs, c)
     });
     for (fs, c) in aresults { findings.extend(fs); cnt.merge(&c); }
